@@ -312,6 +312,11 @@ def project(inp, obs):
 
 def _dims_vs_points(inp, obs, failure):
     s = inp['side']
+    # KF-D5a is about the shape heuristic of get_sort_order / get_dimensionality (sizes, order and what the wrapper
+    # derives from them).  Re-building indices from values and reading unit values with an explicit orientation do
+    # not go through it and work on the unchanged tree: failures of those clauses are never covered by the finding.
+    if failure.startswith(('rebuild-', 'unit-values-explicit-', 'unit-values-exact-')):
+        return False
     return len(s['sizes']) > int(np.prod(s['sizes'])) and '-dims>points' in failure
 
 
